@@ -20,6 +20,7 @@ import jax.numpy as jnp
 from jax2onnx.converter.typing_support import LoweringContextProtocol
 from jax2onnx.plugins._post_check_onnx_graph import expect_graph as EG
 from jax2onnx.plugins.jax._autodiff_utils import register_jvp_via_jax_jvp
+from jax2onnx.plugins.jax.lax._reduce_utils import _maybe_cast_input
 from jax2onnx.plugins.jax.numpy._common import (
     get_orig_impl,
     make_jnp_primitive,
@@ -208,8 +209,19 @@ class JnpMeanPlugin(PrimitiveLeafPlugin):
         else:
             axes_attr = None  # reduce all
 
+        # ONNX ReduceMean keeps its input type (and has no integer variant), while jnp.mean of
+        # integers / booleans is a float: convert to the result type first, as JAX does.
+        operand_dtype = np.dtype(getattr(operand_var.aval, "dtype"))
+        out_dtype = np.dtype(getattr(out_var.aval, "dtype"))
+        if operand_dtype != out_dtype:
+            operand_val = _maybe_cast_input(
+                ctx,
+                operand_val,
+                tuple(getattr(operand_var.aval, "shape", ())),
+                out_dtype,
+            )
+
         # Build ReduceMean
-        # Note: we skip casting for now as abstract_eval handles weak types usually
 
         inputs = [operand_val]
         if axes_attr is not None:
